@@ -231,7 +231,15 @@ def exec_tx(h, sub, o, body, fault) -> Outcome:
             for op in body:
                 if op[0] == "w":
                     _, name, data, closed = op
-                    if closed:
+                    if closed == "close":            # explicit close() instead of a with-block
+                        f = h.open(name, "wb")
+                        keep.append(f)
+                        INJ.step(("write", name))
+                        f.write(data)
+                        f.close()
+                        keep.remove(f)
+                        res.closed_writes[effective(sub, name)] = data
+                    elif closed:
                         with h.open(name, "wb") as f:
                             INJ.step(("write", name))
                             f.write(data)
@@ -299,7 +307,7 @@ def enc_body(sub, body):
     out = []
     for op in body:
         if op[0] == "w":
-            out.append([0, effective(sub, op[1]).encode(), op[2], op[3]])
+            out.append([0, effective(sub, op[1]).encode(), op[2], bool(op[3])])
         elif op[0] == "raise":
             out.append([1])
         elif op[0] == "badopen":
@@ -451,11 +459,11 @@ def fault_sweep(o, body, upto):
 def systematic(quick: bool):
     """(revision, subdir, hops) — every step of representative transactions is interrupted once"""
     hs = []
-    mod2 = [W("a.txt", b"A-new"), W("sub/c.txt", b"C-new\n")]
+    mod2 = [W("a.txt", b"A-new"), W("sub/c.txt", b"C-new\n", "close")]
     hs.append(("main", "/", fault_sweep(opts(), mod2, 13) + [("outside",)]))
     hs.append(("main", "/", fault_sweep(opts(dry_run=True), mod2, 13) + [("tx", opts(), [W("b.txt", b"only-b")], None)]))
     hs.append(("main", "/", fault_sweep(opts(ignore_empty=False, author=("A U", "a@u"), msg="new + nested"),
-                                        [W("n1.txt", b"new1"), W("sub/deep/n2.bin", b"\x00\x01\xfe")], 12)))
+                                        [W("n1.txt", b"new1", "close"), W("sub/deep/n2.bin", b"\x00\x01\xfe")], 12)))
     hs.append(("main", "/", fault_sweep(opts(), [W("a.txt", b"a1\n"), W("b.txt", b"b0")], 10)))         # unchanged content
     hs.append(("main", "/", fault_sweep(opts(ignore_empty=False), [W("a.txt", b"a1\n")], 8)))           # empty commit asked for
     hs.append(("main", "/", fault_sweep(opts(), [W("n1.txt", b"x"), ("raise",)], 7)
@@ -477,6 +485,22 @@ def systematic(quick: bool):
                               ("tx", opts(remote_branch="other"), [W("n1.txt", b"n-1")], None),
                               ("tx", opts(remote_branch="other"), [W("n2.txt", b"n-2"), ("raise",)], None)]))
     hs.append(("v1", "/", [("tx", opts(), [W("a.txt", b"on a tag")], None)]))
+    if not quick:
+        bodies = {
+            "modified": [W("a.txt", b"M1"), W("sub/deep/e.bin", b"\x00M2", "close")],
+            "new": [W("n1.txt", b"N1", "close"), W("sub/n2.txt", b"")],
+            "unchanged": [W("b.txt", b"b0") if True else None, W("sub/c.txt", b"c0\r\n")],
+            "mixed": [W("a.txt", b"first"), W("a.txt", b"second"), W("b.txt", b"b0"), W("n 4.txt", b"sp")],
+        }
+        for rev in ("main", "third"):
+            for dry in (False, True):
+                for ign in (True, False):
+                    for name, body in bodies.items():
+                        if rev == "third" and name == "unchanged":
+                            continue
+                        o = opts(dry_run=dry, ignore_empty=ign, msg=f"{name} dry={dry} ign={ign}",
+                                 author=("T H", "t@h") if dry else ("", ""))
+                        hs.append((rev, "/", fault_sweep(o, body, 3 * len(body) + 7)))
     return hs
 
 
@@ -497,7 +521,8 @@ def random_history(rng, own_branch_only: bool):
             continue
         body = []
         for _ in range(rng.choice([0, 1, 1, 2, 2, 3, 4])):
-            body.append(W(rng.choice(names), rng.choice(DATA) if rng.random() < 0.7 else bytes(rng.randrange(256) for _ in range(rng.randint(1, 12)))))
+            body.append(W(rng.choice(names), rng.choice(DATA) if rng.random() < 0.7 else bytes(rng.randrange(256) for _ in range(rng.randint(1, 12))),
+                          rng.choice([True, True, "close"])))
         will_abort = False
         r = rng.random()
         if r < 0.12:
@@ -532,7 +557,6 @@ def run_history(chk, gh, tmp, n, rev, sub, hops, stats):
     init = [init_commits, [[r.encode(), rp.sha2id[refs0[r]]] for r in refs0], rp.sha2id[head0],
             h.revision, ENV_AUTHOR[0], ENV_AUTHOR[1]]
     observations = []
-    dirty_by_misuse = False
     try:
         for i, hop in enumerate(hops):
             os.environ["GIT_COMMITTER_DATE"] = os.environ["GIT_AUTHOR_DATE"] = f"{1700000000 + 100 * n + i} +0000"
@@ -554,13 +578,11 @@ def run_history(chk, gh, tmp, n, rev, sub, hops, stats):
                     stats["fault_sites"].add(" ".join(res.fired_at[1:3] if res.fired_at[1] == "reset" else res.fired_at[1:2]) if res.fired_at[0] == "git" else res.fired_at[0])
                 if pre.rev_sha != pre.head:
                     stats["diverged_prestate"] += 1
-                if not dirty_by_misuse:
+                if not (res.unclosed and res.exc is None):
+                    # a file still open when the transaction commits is documented data loss (not judged);
+                    # the next transactions are judged again as soon as the work tree is clean
                     oracle(chk, rp, h, sub, hop, res, pre, post, new, desc)
                     chk.note_case(("tx", rev, sub, repr(hop)), nontrivial=bool(hop[2]))
-                if res.unclosed and res.exc is None and not hop[1]["dry_run"]:
-                    dirty_by_misuse = True     # an open file at commit time is documented data loss; later states are not judged
-                if post.status != "" and pre.status == "" and not dirty_by_misuse and res.exc is None and hop[1]["dry_run"]:
-                    dirty_by_misuse = True     # already reported by the oracle; do not pile up follow-up reports
             else:
                 err = None
                 try:
